@@ -12,6 +12,7 @@ import (
 	"slices"
 	"strings"
 	"sync"
+	"sync/atomic"
 	"testing"
 	"time"
 
@@ -33,9 +34,14 @@ type c19Hit struct {
 	SNI        string
 	Proto      string
 	RemoteAddr string
+	ConnID     int64 // unique per accepted connection (ephemeral ports get reused)
 	TLS        bool
 	ECH        bool
 }
+
+type c19ConnKey struct{}
+
+var c19ConnCounter atomic.Int64
 
 type c19Servers struct {
 	mu    sync.Mutex
@@ -76,6 +82,7 @@ func c19Start(t interface{ Fatalf(string, ...any) }) *c19Servers {
 			}
 			srv := &http.Server{Handler: http.HandlerFunc(func(w http.ResponseWriter, r *http.Request) {
 				h := c19Hit{Server: idx, ReqID: r.Header.Get("X-Req-Id"), Host: r.Host, Proto: r.Proto, RemoteAddr: r.RemoteAddr, TLS: r.TLS != nil}
+				h.ConnID, _ = r.Context().Value(c19ConnKey{}).(int64)
 				if r.TLS != nil {
 					h.SNI, h.ECH = r.TLS.ServerName, r.TLS.ECHAccepted
 				}
@@ -83,7 +90,9 @@ func c19Start(t interface{ Fatalf(string, ...any) }) *c19Servers {
 				s.hits = append(s.hits, h)
 				s.mu.Unlock()
 				fmt.Fprintf(w, "server=%d host=%s", idx, r.Host)
-			}), TLSConfig: cfg}
+			}), TLSConfig: cfg, ConnContext: func(ctx context.Context, c net.Conn) context.Context {
+				return context.WithValue(ctx, c19ConnKey{}, c19ConnCounter.Add(1))
+			}}
 			go srv.ServeTLS(ln, "", "")
 			s.addrs = append(s.addrs, ln.Addr().String())
 		}
@@ -367,7 +376,7 @@ func TestC19(t *testing.T) {
 			rtc := &rtCheck{inner: tr}
 			client := &http.Client{Transport: rtc, Timeout: 20 * time.Second}
 			defer tr.HTTPTransport.CloseIdleConnections()
-			connSeen := map[string]string{} // server-side remote addr -> origin key it first served
+			connSeen := map[int64]string{} // server-side connection id -> origin key it first served
 			for i := 0; i < nreq; i++ {
 				oi := rapid.IntRange(0, len(origins)-1).Draw(t, "origin")
 				o := origins[oi]
@@ -524,10 +533,23 @@ func TestC19(t *testing.T) {
 					}
 					results = append(results, reqID+":refused")
 				case len(expTargets) == 0 || allDown:
-					if rerr == nil {
-						ev.Violation(t, "C19", rp, "request succeeded although no compatible target is reachable (expected targets %v)", expTargets)
+					key := o.Scheme + "|" + o.authority()
+					if o.Scheme == "http" {
+						key = "https|" + o.authority()
 					}
-					results = append(results, reqID+":unreachable")
+					if rerr == nil {
+						// fine if it went out on a pooled connection that this very origin
+						// established before its target was marked down
+						if hit == nil || connSeen[hit.ConnID] != key {
+							ev.Violation(t, "C19", rp, "request succeeded although no compatible target is reachable (expected targets %v)", expTargets)
+						}
+						io.Copy(io.Discard, resp.Body)
+						resp.Body.Close()
+						cl = append(cl, "conn_reused")
+						results = append(results, reqID+":ok-pooled")
+					} else {
+						results = append(results, reqID+":unreachable")
+					}
 				default:
 					if withH3 && hasH3Rec {
 						cl = append(cl, "h3_not_chosen_with_h3_record")
@@ -560,13 +582,13 @@ func TestC19(t *testing.T) {
 					if o.Scheme == "http" {
 						key = "https|" + o.authority() // an upgraded origin is the https origin
 					}
-					if prev, ok := connSeen[hit.RemoteAddr]; ok {
+					if prev, ok := connSeen[hit.ConnID]; ok {
 						cl = append(cl, "conn_reused")
 						if prev != key {
 							ev.Violation(t, "C19", rp, "request for %s was sent on a pooled connection that was dialed for %s", key, prev)
 						}
 					} else {
-						connSeen[hit.RemoteAddr] = key
+						connSeen[hit.ConnID] = key
 						// the dial that produced this connection
 						var dr *dialRec
 						for k := range myDials {
